@@ -767,13 +767,19 @@ def _handler_effects(ck):
     need_writes("set_status", {"_status_code", "_reason"})
     need_writes("set_etag_header", {"_headers"})
     need_writes("check_etag_header", set())
-    need_writes("_clear_representation_headers", {"_headers"})
+    has_crh = ck.repo.has_func(WEB, RH + "._clear_representation_headers")  # may have been inlined into finish()
+    if has_crh:
+        need_writes("_clear_representation_headers", {"_headers"})
     need_writes("write", {"_write_buffer", "_headers"})
-    crh = F(ck, WEB, RH + "._clear_representation_headers")
-    cleared = set(q.literal_strs(crh.node))
+    cleared = set(q.literal_strs(F(ck, WEB, RH + "._clear_representation_headers").node)) if has_crh else set()
+
+    def _name_of(env, c):
+        a = q.arg(c, 0, "name")
+        v = try_fold(a, env) if a is not None else UNK
+        return v if isinstance(v, str) else None
 
     def set_header(env, c):
-        name = _const_arg(c, 0)
+        name = _name_of(env, c)
         cur = env.get(HDRS)
         if name is None:
             env[HDRS] = UNK
@@ -783,7 +789,7 @@ def _handler_effects(ck):
         env["@set:" + name] = True
 
     def clear_header(env, c):
-        name = _const_arg(c, 0)
+        name = _name_of(env, c)
         cur = env.get(HDRS)
         if name is None:
             env[HDRS] = UNK
@@ -846,8 +852,9 @@ def check_handler_finish(ck):
     ps = fi.params()
     chunk = ps[1] if len(ps) > 1 else None
     effects, cleared = _handler_effects(ck)
-    ck.ob("C02.finish-bodiless", F(ck, WEB, RH + "._clear_representation_headers"), None, "Content-Length" not in cleared and "Transfer-Encoding" not in cleared,
-          "_clear_representation_headers does not remove framing headers", construct="framing header cleared")
+    if ck.repo.has_func(WEB, RH + "._clear_representation_headers"):
+      ck.ob("C02.finish-bodiless", F(ck, WEB, RH + "._clear_representation_headers"), None, "Content-Length" not in cleared and "Transfer-Encoding" not in cleared,
+            "_clear_representation_headers does not remove framing headers", construct="framing header cleared")
     code_paths = [SC]
     classes = []
     for c in partition(STATUS_DOMAIN, predicates_on(fi.node, code_paths), code_paths):
